@@ -12,11 +12,20 @@ Theorem C04_fifo : forall s, reachable s -> forall w,
 Proof. exact fifo. Qed.
 Print Assumptions C04_fifo.
 
-(* A put is dropped only when the event equals the last, still undelivered, element of the queue. *)
-Theorem C04_coalesce_only_identical_last : forall s e ev s', step s (LESkip e ev) = Some s' ->
-  exists m, get_em s e = Some m /\ last_is (queue s) (QEv ev (ew m)) = true /\ queue s' = queue s.
+(* A put is dropped only when the event equals SkipRepeatsQueue._last_item (the model's [qlast]), and in every
+   reachable state _last_item, if not None, is the last, still undelivered, element of the queue.
+   (The hypothesis [reachable s] is new: the skip test is now on the modelled _last_item field, whose relation
+   to the queue is an invariant, not a definition - the marker's identity test in _get can reset _last_item
+   while another marker is still queued.) *)
+Theorem C04_coalesce_only_identical_last : forall s, reachable s -> forall e ev s', step s (LESkip e ev) = Some s' ->
+  exists m, get_em s e = Some m /\ qlast s = Some (QEv ev (ew m)) /\
+            last_is (queue s) (QEv ev (ew m)) = true /\ queue s' = queue s.
 Proof. exact skip_justified. Qed.
 Print Assumptions C04_coalesce_only_identical_last.
+
+Theorem C04_last_item_is_last_queued : forall s, reachable s -> forall x, qlast s = Some x -> last_is (queue s) x = true.
+Proof. exact QlastInv_reachable. Qed.
+Print Assumptions C04_last_item_is_last_queued.
 
 (* A handler is called only by the dispatcher's turn instruction, only with the event in dispatch and
    its watch, only if it is in the snapshot taken for this event and has not had its turn, and only if
@@ -74,4 +83,13 @@ Print Assumptions C04_callback_under_lock.
 Example C04_nonvacuous :
   option_map (fun s => (delivered 1%N 2%N s, queued 2%N s, dequeued 2%N s, queue s, dl (glog s))) (run init tr_deliver)
   = Some ([7], [7], [7], [], [{| re := 7; rw := 2; rsnap := Some [1]; rturns := [(1, true)] |}])%N.
+Proof. vm_compute. reflexivity. Qed.
+
+(* The emitter's read of _last_item and its enqueue are separate steps (LECheck, then LESkip / LEPut): a
+   dispatcher get in between is a behaviour of the model. *)
+Example C04_get_between_read_and_enqueue :
+  option_map (fun s => (queue s, qlast s, step s (LESkip 0%nat 7%N),
+                        option_map (fun s' => (queue s', qlast s')) (step s (LEPut 0%nat 7%N))))
+             (run init tr_get_between_read_and_put)
+  = Some ([], None, None, Some ([QEv 7 2], Some (QEv 7 2)))%N.
 Proof. vm_compute. reflexivity. Qed.
